@@ -681,6 +681,7 @@ def _set_path(v, path, i, val):
     return tuple(l)
 
 
+GLOBAL_INIT = {}    # library global name -> fn(interp) -> initial value
 FRESH_HOOKS = {}    # type string -> fn(ctx, t, tag, opts)
 LAZY_HOOKS = {}     # type string -> fn(ctx, lazy)
 IFACE_CANDS = {}    # interface type -> list of candidate dyn types (None = nil)
@@ -755,7 +756,9 @@ class Interp:
             t = self.prog.globals[name]
             pkg = name.rsplit('.', 1)[0]
             fj = self.prog.funcs.get(pkg + '.init')
-            if (fj is None or not fj.get('hasbody')) and t == 'error':
+            if name in GLOBAL_INIT:
+                self.ctx.store[cid] = GLOBAL_INIT[name](self)
+            elif (fj is None or not fj.get('hasbody')) and t == 'error':
                 # sentinel error of a library whose init is not executed: a unique, stable identity
                 ecell = 'e:' + name
                 self.ctx.store[ecell] = StructV([name.rsplit('/', 1)[-1]])
